@@ -920,6 +920,64 @@ Section Sim.
     replace (length Y + c - length Y)%nat with c by lia. reflexivity.
   Qed.
 
+  (* match starting in the external dictionary, possibly cut at oend (partial mode) *)
+  Lemma ext_match_part infast s offset length :
+    1 <= offset -> op s - offset < lowPrefix -> lowPrefix - dictSize <= op s - offset ->
+    4 <= length -> 0 <= op s -> op s <= oend -> (partial = false -> op s + length <= oend - 5) ->
+    is_cont_f infast (ext_match partial oend lowPrefix rlow dictm dictSize infast s (op s - offset) length)
+      (fun s' => ip s' = ip s /\ op s' = op s + Z.min length (oend - op s) /\
+                 same_below (dm s) (dm s') (op s) /\
+                 frec (vget (dm s')) offset (op s) (op s + Z.min length (oend - op s))).
+  Proof.
+    intros Ho Hlt Hge Hlen Hop Hoe Hroom.
+    unfold ext_match. cbv zeta.
+    assert (Eerr : (op s + length >? oend - LASTLITERALS) && negb partial = false).
+    { destruct partial; [cbn [negb]; apply andb_false_r|]. specialize (Hroom eq_refl). fin. }
+    rewrite Eerr. cbv beta iota.
+    set (n := if op s + length >? oend - LASTLITERALS then Z.min length (oend - op s) else length).
+    assert (En : n = Z.min length (oend - op s)).
+    { unfold n. destruct (op s + length >? oend - LASTLITERALS) eqn:E; [reflexivity | fin]. }
+    clearbody n. subst n.
+    set (n := Z.min length (oend - op s)) in *.
+    assert (Hn : 0 <= n) by (unfold n; lia).
+    set (mat := op s - offset) in *.
+    assert (Hdict : forall m' x, x < lowPrefix -> vget m' x = get dictm (dictSize - (lowPrefix - x))).
+    { intros m' x Hx. unfold vget. destruct (x <? lowPrefix) eqn:E; [reflexivity | lia]. }
+    destruct (n <=? lowPrefix - mat) eqn:Ein; cbv beta iota.
+    - cbn [is_cont_f]. split; [reflexivity|]. cbn [ip op dm].
+      split; [reflexivity|]. split; [reflexivity|]. split; [apply blit_same_below|].
+      intros x Hx. rewrite vget_hi by lia. rewrite Hdict by (unfold mat in *; lia).
+      rewrite get_blit. assert (E : (op s <=? x) && (x <? op s + Z.of_nat (Z.to_nat n)) = true) by lia. rewrite E.
+      f_equal. unfold mat. lia.
+    - set (cs := lowPrefix - mat) in *.
+      set (m1 := blit dictm (dictSize - cs) (dm s) (op s) (Z.to_nat cs)).
+      assert (S1 : same_below (dm s) m1 (op s)) by apply blit_same_below.
+      assert (Hoff : op s + cs - lowPrefix = offset) by (unfold cs, mat; lia).
+      assert (Hm2 : exists m2, (if n - cs >? op s + cs - lowPrefix
+                                then copy_fwd m1 (op s + cs) lowPrefix (Z.to_nat (n - cs))
+                                else blit m1 lowPrefix m1 (op s + cs) (Z.to_nat (n - cs))) = m2 /\
+                               same_below m1 m2 (op s + cs) /\ lzrec m2 offset (op s + cs) (op s + n)).
+      { destruct (n - cs >? op s + cs - lowPrefix) eqn:Eov.
+        - destruct (copy_fwd_lz (Z.to_nat (n - cs)) m1 (op s + cs) offset Ho) as [S R].
+          replace (op s + cs - offset) with lowPrefix in S, R by lia.
+          eexists. split; [reflexivity|]. split; [exact S|].
+          eapply lzrec_weaken; [exact R | lia | lia].
+        - destruct (memcpy_lz m1 (op s + cs) offset (Z.to_nat (n - cs))) as [S R]; [lia|].
+          replace (op s + cs - offset) with lowPrefix in S, R by lia. unfold memcpy_k in S, R.
+          eexists. split; [reflexivity|]. split; [exact S|].
+          eapply lzrec_weaken; [exact R | lia | lia]. }
+      destruct Hm2 as (m2 & Em2 & S2 & R2). rewrite Em2.
+      cbn [is_cont_f]. split; [reflexivity|]. cbn [ip op dm].
+      split; [reflexivity|]. split; [lia|]. split.
+      + eapply same_below_trans; [exact S1 | exact S2 | unfold cs, mat; lia].
+      + intros x Hx. destruct (Z_lt_ge_dec x (op s + cs)) as [Hlo|Hhi].
+        * rewrite vget_hi by lia. rewrite Hdict by (unfold cs, mat in *; lia).
+          rewrite S2 by lia. unfold m1. rewrite get_blit.
+          assert (E : (op s <=? x) && (x <? op s + Z.of_nat (Z.to_nat cs)) = true) by (unfold cs, mat in *; lia). rewrite E.
+          f_equal. unfold cs, mat. lia.
+        * rewrite !vget_hi by lia. apply R2. lia.
+  Qed.
+
   (* ---------- the match copy when it comes within 12 bytes of [oend] ---------- *)
   Lemma safe_match_cut s offset length :
     partial = true ->
@@ -1015,7 +1073,7 @@ Section Sim.
   Definition part_post (o want : Z) (rout1 : list Z) (next : dstate -> Prop) (done : bool) (s' : dstate) : Prop :=
     op s' = o + Z.min want (oend - o) /\
     out_at (vget (dm s')) (op s') (skipn (Z.to_nat (want - Z.min want (oend - o))) rout1) /\
-    (if done then op s' = oend else Z.min want (oend - o) = want /\ next s').
+    (if done then op s' = oend else (Z.min want (oend - o) = want \/ op s' = oend) /\ next s').
 
   (* from the state after the (complete) literals to the end of the (possibly cut) match *)
   Lemma after_lits_part (i o : Z) (m1 : mem) kf nib o1 o2 r3 ml r4 rout0 rout1 :
@@ -1235,7 +1293,7 @@ Section Sim.
           -- replace (Z.of_nat (Z.to_nat (o1 + 256 * o2))) with (o1 + 256 * o2) by lia.
              apply lzrec_v; [|lia|lia].
              eapply lzrec_weaken; [exact R | lia | fin].
-        * split; [reflexivity|]. rewrite Er4 in *. split; [cbn [length]; lia|]. split; [|exact Hb5].
+        * split; [left; reflexivity|]. rewrite Er4 in *. split; [cbn [length]; lia|]. split; [|exact Hb5].
           replace (ip s + 1 + Z.of_nat (length lits) + 2) with (ip s + 1 + Z.of_nat (length lits) + 1 + 1 + (Z.of_nat (length r3) - Z.of_nat (length r3))) by lia. exact Hs5.
       + (* general match path, possibly cut *)
         eapply is_cod_mono.
@@ -1351,6 +1409,78 @@ Section Sim.
       apply Hlit.
   Qed.
 
+  (* ---------- a step that starts with op = oend (after a match that was cut exactly at oend
+     by a copy that does not test for it: the external-dictionary copy) ---------- *)
+  Lemma safe_top_at_end s tok r ll r1 lits r2 :
+    partial = true ->
+    bytes (tok :: r) -> src_at srcm (ip s) (tok :: r) -> 0 <= ip s ->
+    ip s + Z.of_nat (length (tok :: r)) <= iend ->
+    read_len (tok / 16) r = Some (ll, r1) -> take (Z.to_nat ll) r1 = Some (lits, r2) ->
+    op s = oend -> 0 <= op s ->
+    is_done (safe_top partial dict srcm iend oend lowPrefix rlow dictm dictSize s)
+            (fun s' => op s' = oend /\ same_below (dm s) (dm s') oend).
+  Proof.
+    intros Hp Hb Hs Hip Hie Hrl1 Htk Hoe Hop.
+    unfold byte in *.
+    destruct (bytes_cons _ _ Hb) as [Htok Hbr].
+    destruct (src_at_cons _ _ _ _ Hs) as [Htokm Hsr].
+    destruct (nibbles tok Htok) as [Hn1 Hn2].
+    cbn [length] in Hie.
+    destruct (read_len_suffix _ _ _ _ _ Hn1 Hrl1 Hbr Hsr) as (Hl1 & Hll & Hnoext & Hs1 & Hb1).
+    unfold byte in *.
+    set (p1 := ip s + 1 + (Z.of_nat (length r) - Z.of_nat (length r1))) in *.
+    destruct (take_spec _ _ _ _ Htk) as [Er1 Hlits]. unfold byte in *.
+    assert (Ell : ll = Z.of_nat (length lits)) by lia.
+    assert (Hlr1 : length r1 = (length lits + length r2)%nat) by (rewrite Er1, app_length; reflexivity).
+    unfold safe_top. cbv zeta. rewrite Htokm.
+    assert (Esc : negb (tok / 16 =? RUN_MASK) && ((ip s + 1 <? shortiend iend) && (op s <=? shortoend oend)) = false) by fin.
+    rewrite Esc. cbv beta iota.
+    assert (Hlit : forall kf,
+      is_done (safe_lit partial dict srcm iend oend lowPrefix rlow dictm dictSize (mkD p1 (op s) (dm s) kf) tok ll)
+              (fun s' => op s' = oend /\ same_below (dm s) (dm s') oend)).
+    { intros kf. unfold safe_lit. cbv zeta. cbn [ip op dm]. rewrite Hp. cbn [negb andb].
+      assert (Ep1 : p1 + ll <= iend) by (unfold p1; lia).
+      hd.
+      assert (Ec1 : (p1 + ll >? iend) = false) by lia. rewrite Ec1. cbv beta iota.
+      destruct (op s + ll >? oend) eqn:Eclip; cbv beta iota.
+      - assert (Ed : (oend =? oend) || (p1 + (oend - op s) >=? iend - 2) = true) by lia.
+        rewrite orb_false_l, Ed. cbn [is_done op dm]. split; [lia|].
+        rewrite <- Hoe. apply blit_same_below.
+      - assert (Ed : (op s + ll =? oend) || (p1 + ll >=? iend - 2) = true) by lia.
+        rewrite orb_false_l, Ed. cbn [is_done op dm]. split; [lia|].
+        rewrite <- Hoe. apply blit_same_below. }
+    destruct (tok / 16 =? RUN_MASK) eqn:E15; cbv beta iota.
+    - unfold read_len in Hrl1. assert (E15' : (tok / 16 =? 15) = true) by fin. rewrite E15' in Hrl1.
+      destruct (rvl_sim r ll r1 (ip s + 1) (iend - RUN_MASK) true (ok s && rd_src iend (ip s) 1) Hrl1 Hsr) as (_ & _ & kf' & Hr); [fin | fin | fin |].
+      rewrite Hr. cbv beta iota. unfold byte. fold p1.
+      replace (tok / 16 + (ll - 15)) with ll by fin.
+      apply Hlit.
+    - assert (Hlt15 : tok / 16 < 15) by fin.
+      destruct (Hnoext Hlt15) as [Ell' Er].
+      assert (Ep1 : p1 = ip s + 1) by (unfold p1; rewrite Er; lia).
+      rewrite <- Ep1. rewrite <- Ell'.
+      apply Hlit.
+  Qed.
+
+  Lemma run_at_end f (r4 : list Z) ss' (last' : list Z) s' fuel :
+    partial = true -> parse_seqs f r4 = Some (ss', last') ->
+    bytes r4 -> src_at srcm (ip s') r4 -> 0 <= ip s' -> ip s' + Z.of_nat (length r4) <= iend ->
+    op s' = oend -> 0 <= op s' -> (1 <= fuel)%nat ->
+    exists s'', run partial dict srcm iend oend lowPrefix rlow dictm dictSize fuel false s' = (oend, s'')
+                /\ same_below (dm s') (dm s'') oend.
+  Proof.
+    intros Hp H Hb Hs Hip Hie Hoe Hop Hfuel.
+    destruct f as [|f]; [discriminate|]. rewrite parse_seqs_S in H.
+    destruct r4 as [|tok r]; [discriminate|].
+    destruct (read_len (tok / 16) r) as [[ll r1]|] eqn:E1; [|discriminate].
+    destruct (take (Z.to_nat ll) r1) as [[lits r2]|] eqn:E2; [|discriminate].
+    destruct fuel as [|fuel]; [lia|]. cbn [run].
+    pose proof (safe_top_at_end s' tok r ll r1 lits r2 Hp Hb Hs Hip Hie E1 E2 Hoe Hop) as HL.
+    destruct (safe_top partial dict srcm iend oend lowPrefix rlow dictm dictSize s') as [[|] s''|s''|s''];
+      cbn [is_done] in HL; try (exfalso; exact HL).
+    destruct HL as [H1 H2]. exists s''. rewrite H1. split; [reflexivity | exact H2].
+  Qed.
+
   (* ---------- the safe loop on a strictly valid block, partial decoding ---------- *)
   Lemma run_sim_part : forall f (bs : list Z) ss (last : list Z), parse_seqs f bs = Some (ss, last) ->
     forall rout rout' s fuel,
@@ -1422,22 +1552,34 @@ Section Sim.
       destruct (apply_seqs_suffix _ _ _ Happ) as (X & HX & HXl).
       destruct (safe_top partial dict srcm iend oend lowPrefix rlow dictm dictSize s) as [[|] s'|s'|s'];
         cbn [is_cont_or_done] in HS; try (exfalso; exact HS); unfold part_post in HS.
-      + (* the sequence was completed: go on *)
-        destruct HS as (Ho' & O' & Hmin & Hi' & Hs' & Hb').
-        rewrite Hmin in *. replace (Z.to_nat (ll + (ml + 4) - (ll + (ml + 4)))) with 0%nat in O' by lia. cbn [skipn] in O'.
+      + (* Cont: the sequence was completed, or it was cut exactly at oend *)
+        destruct HS as (Ho' & O' & Hor & Hi' & Hs' & Hb').
         cbn [length] in Hi', Hie, Hfuel, Hex.
-        destruct (IH r4 ss' last' E4 rout1 rout' s' fuel Hp Happ Hend' Hb' Hs') as (s'' & Hrun & Hout).
-        * unfold byte in *; lia.
-        * unfold byte in *; lia.
-        * unfold byte in *; lia.
-        * exact O'.
-        * unfold byte in *; lia.
-        * unfold byte in *; lia.
-        * unfold byte in *; lia.
-        * unfold byte in *; lia.
-        * exists s''. rewrite Hrun.
-          replace (op s' + total_len ss' last') with (op s + (ll + (ml + 4) + total_len ss' last')) in * by lia.
-          split; [reflexivity | exact Hout].
+        destruct (Z.eq_dec (Z.min (ll + (ml + 4)) (oend - op s)) (ll + (ml + 4))) as [Hmin|Hcut].
+        * rewrite Hmin in *. replace (Z.to_nat (ll + (ml + 4) - (ll + (ml + 4)))) with 0%nat in O' by lia. cbn [skipn] in O'.
+          destruct (IH r4 ss' last' E4 rout1 rout' s' fuel Hp Happ Hend' Hb' Hs') as (s'' & Hrun & Hout).
+          -- unfold byte in *; lia.
+          -- unfold byte in *; lia.
+          -- unfold byte in *; lia.
+          -- exact O'.
+          -- unfold byte in *; lia.
+          -- unfold byte in *; lia.
+          -- unfold byte in *; lia.
+          -- unfold byte in *; lia.
+          -- exists s''. rewrite Hrun.
+             replace (op s' + total_len ss' last') with (op s + (ll + (ml + 4) + total_len ss' last')) in * by lia.
+             split; [reflexivity | exact Hout].
+        * assert (Hoe' : op s' = oend) by lia.
+          destruct (run_at_end f r4 ss' last' s' fuel Hp E4 Hb' Hs') as (s'' & Hrun & Hsb); try (unfold byte in *; lia).
+          exists s''. rewrite Hrun.
+          replace (Z.min oend (op s + (ll + (ml + 4) + total_len ss' last'))) with oend by lia.
+          split; [reflexivity|].
+          eapply out_at_v_same_below; [|exact Hsb].
+          rewrite HX. rewrite app_assoc.
+          replace (Z.to_nat (op s + (ll + (ml + 4) + total_len ss' last') - oend))
+            with (Z.to_nat (total_len ss' last') + Z.to_nat (ll + (ml + 4) - Z.min (ll + (ml + 4)) (oend - op s)))%nat by lia.
+          rewrite skipn_app_exact; [rewrite Hoe' in O'; exact O'|].
+          rewrite app_length, rev_length. rewrite total_len_last. unfold byte in *. lia.
       + (* the sequence was cut at oend: done *)
         destruct HS as (Ho' & O' & Hend2).
         exists s'.
@@ -1925,7 +2067,7 @@ Section Sim.
       replace (Z.min (ml + 4) (oend - o)) with (ml + 4) by lia.
       split; [exact H2|]. split.
       - rewrite H2. apply (cut_match_out m1 (dm s') o (o1 + 256 * o2) (ml + 4) (ml + 4) rout0 rout1); try assumption; lia.
-      - split; [reflexivity|]. split; [lia|]. rewrite Hpp. exact Hsp. }
+      - split; [left; reflexivity|]. split; [lia|]. rewrite Hpp. exact Hsp. }
     (* the safe_match exits (partial) *)
     assert (Hsm : forall p kf', src_at srcm p r4 -> p = i + 2 + (Z.of_nat (length r3) - Z.of_nat (length r4)) ->
                is_cod_any (safe_match partial dict oend lowPrefix rlow dictm dictSize (mkD p o m1 kf') (o1 + 256 * o2) (ml + 4))
@@ -2232,22 +2374,35 @@ Section Sim.
       destruct (apply_seqs_suffix _ _ _ Happ) as (X & HX & HXl).
       destruct (fast_top partial dict srcm iend oend lowPrefix rlow dictm dictSize s) as [f' s'|s'|s'];
         cbn [is_cod_any] in HS; try (exfalso; exact HS); unfold part_post in HS.
-      + destruct HS as ((Ho' & O' & Hmin & Hi' & Hs' & Hb') & Hf').
-        rewrite Hmin in *. replace (Z.to_nat (ll + (ml + 4) - (ll + (ml + 4)))) with 0%nat in O' by lia. cbn [skipn] in O'.
+      + destruct HS as ((Ho' & O' & Hor & Hi' & Hs' & Hb') & Hf').
         cbn [length] in Hi', Hie, Hfuel, Hex.
-        destruct (IH r4 ss' last' E4 rout1 rout' s' fuel f' Hp Happ Hend' Hb' Hs') as (s'' & Hrun & Hout).
-        * unfold byte in *; lia.
-        * unfold byte in *; lia.
-        * unfold byte in *; lia.
-        * exact O'.
-        * unfold byte in *; lia.
-        * unfold byte in *; lia.
-        * unfold byte in *; lia.
-        * exact Hf'.
-        * unfold byte in *; lia.
-        * exists s''. rewrite Hrun.
-          replace (op s' + total_len ss' last') with (op s + (ll + (ml + 4) + total_len ss' last')) in * by lia.
-          split; [reflexivity | exact Hout].
+        destruct (Z.eq_dec (Z.min (ll + (ml + 4)) (oend - op s)) (ll + (ml + 4))) as [Hmin|Hcut].
+        * rewrite Hmin in *. replace (Z.to_nat (ll + (ml + 4) - (ll + (ml + 4)))) with 0%nat in O' by lia. cbn [skipn] in O'.
+          destruct (IH r4 ss' last' E4 rout1 rout' s' fuel f' Hp Happ Hend' Hb' Hs') as (s'' & Hrun & Hout).
+          -- unfold byte in *; lia.
+          -- unfold byte in *; lia.
+          -- unfold byte in *; lia.
+          -- exact O'.
+          -- unfold byte in *; lia.
+          -- unfold byte in *; lia.
+          -- unfold byte in *; lia.
+          -- exact Hf'.
+          -- unfold byte in *; lia.
+          -- exists s''. rewrite Hrun.
+             replace (op s' + total_len ss' last') with (op s + (ll + (ml + 4) + total_len ss' last')) in * by lia.
+             split; [reflexivity | exact Hout].
+        * assert (Hoe' : op s' = oend) by lia.
+          assert (Hf'' : f' = false) by (destruct f'; [specialize (Hf' eq_refl); lia | reflexivity]). subst f'.
+          destruct (run_at_end f r4 ss' last' s' fuel Hp E4 Hb' Hs') as (s'' & Hrun & Hsb); try (unfold byte in *; lia).
+          exists s''. rewrite Hrun.
+          replace (Z.min oend (op s + (ll + (ml + 4) + total_len ss' last'))) with oend by lia.
+          split; [reflexivity|].
+          eapply out_at_v_same_below; [|exact Hsb].
+          rewrite HX. rewrite app_assoc.
+          replace (Z.to_nat (op s + (ll + (ml + 4) + total_len ss' last') - oend))
+            with (Z.to_nat (total_len ss' last') + Z.to_nat (ll + (ml + 4) - Z.min (ll + (ml + 4)) (oend - op s)))%nat by lia.
+          rewrite skipn_app_exact; [rewrite Hoe' in O'; exact O'|].
+          rewrite app_length, rev_length. rewrite total_len_last. unfold byte in *. lia.
       + destruct HS as (Ho' & O' & Hend2).
         exists s'.
         replace (Z.min oend (op s + (ll + (ml + 4) + total_len ss' last'))) with (op s') by lia.
